@@ -2,6 +2,10 @@
 # pre-commit gate for /verif: the registered setup_cmd must build, the manifest must validate, no sorry in imported files
 set -e
 cd "$(dirname "$0")/.."
+# hold the shared tree lock (see harness/main.py) so that no development run rewrites Generated/ meanwhile
+mkdir -p lean/.lake
+exec 9>lean/.lake/tree.lock
+flock -s 9
 # the generated model files must be what the translator produces from /repo (a dev run against a mutated tree may have left others)
 python3 - <<'PY'
 import sys
